@@ -64,7 +64,7 @@ RXV_SUBCOMMAND(c01) {
 	ip::setGarbageSeed(args.seed * 13 + 5);
 	ip::setHugePages(1); // LARGE_PAGES requests succeed with ordinary pages (there are no huge pages here)
 	const randomx_flags hw = api::getFlags();
-	for (const char* f : { "triples_compared", "configs_per_triple_min", "light_vms", "fast_vms", "caches", "datasets_compiled_init", "batch_digests", "v2_switched_with_setFlagV2", "v2_created_with_flag", "secure_without_jit", "large_page_vms", "dataset_items_checked_against_light_mode" }) R.floorKey(f);
+	for (const char* f : { "triples_compared", "configs_per_triple_min", "light_vms", "fast_vms", "caches", "datasets_compiled_init", "batch_digests", "v2_switched_with_setFlagV2", "v2_created_with_flag", "secure_without_jit", "large_page_vms", "dataset_items_checked_against_light_mode", "fast_sweep_triples" }) R.floorKey(f);
 	if (thorough) R.floorKey("datasets_interpreter_init");
 
 	for (uint64_t ki = 0; ki < nKeys; ++ki) {
@@ -176,6 +176,50 @@ RXV_SUBCOMMAND(c01) {
 			R.count(v.createdV2 ? "v2_created_with_flag" : "v2_switched_with_setFlagV2");
 			if ((v.flags & RANDOMX_FLAG_SECURE) && !(v.flags & RANDOMX_FLAG_JIT)) R.count("secure_without_jit");
 			if (v.flags & RANDOMX_FLAG_LARGE_PAGES) R.count("large_page_vms");
+		}
+		// ---- fast-mode sweep: many more inputs through the eight fast-mode classes only (a hash costs milliseconds there), so that
+		// input-dependent divergences that need a particular scratchpad-address coincidence (about 4 inputs in 10) cannot slip through
+		// the handful of inputs above
+		{
+			const uint64_t nSweep = args.num("sweep", thorough ? 600 : 64);
+			std::vector<std::vector<uint8_t>> sin;
+			for (uint64_t i = 0; i < nSweep; ++i) sin.push_back(cases::makeInput(rng, 100 + i));
+			std::vector<VmCfg> fv;
+			for (int e = 0; e < 4; ++e) for (int aes = 0; aes < 2; ++aes) {
+				if (aes && !(hw & RANDOMX_FLAG_HARD_AES)) continue;
+				VmCfg v; v.flags = engine[e] | (aes ? RANDOMX_FLAG_HARD_AES : 0) | RANDOMX_FLAG_FULL_MEM; v.cacheIdx = -1; v.datasetIdx = 0; v.createdV2 = false; v.batch = ((e + aes) % 2 == 1);
+				v.name = flagsName(v.flags) + "/fast:" + dsNames[0] + "/sweep" + (v.batch ? "/batch" : "");
+				fv.push_back(v);
+			}
+			std::string sweepFailure;
+			auto sweepWorker = [&](size_t i) {
+				api::threadIndex() = (unsigned)i;
+				VmCfg& v = fv[i];
+				v.vm = api::createVm((randomx_flags)v.flags, nullptr, datasets[0]);
+				if (!v.vm) { std::lock_guard<std::mutex> l(mu); sweepFailure = "create_vm " + v.name; return; }
+				for (int v2 = 0; v2 < 2; ++v2) {
+					{ ip::Api s("setFlagV2"); if (v2) v.vm->setFlagV2(); else v.vm->clearFlagV2(); }
+					v.out[v2].resize(sin.size());
+					if (!v.batch) for (size_t k = 0; k < sin.size(); ++k) api::hash(v.vm, sin[k].data(), sin[k].size(), v.out[v2][k].data());
+					else {
+						api::hashFirst(v.vm, sin[0].data(), sin[0].size());
+						for (size_t k = 1; k < sin.size(); ++k) api::hashNext(v.vm, sin[k].data(), sin[k].size(), v.out[v2][k - 1].data());
+						api::hashLast(v.vm, v.out[v2][sin.size() - 1].data());
+					}
+				}
+				api::destroyVm(v.vm); v.vm = nullptr;
+			};
+			R.setCase("{\"key\":\"" + keyHex + "\",\"stage\":\"fast-mode sweep\",\"vms\":" + std::to_string(fv.size()) + "}");
+			{ std::vector<std::thread> th; for (size_t i = 0; i < fv.size(); ++i) th.emplace_back(sweepWorker, i); for (auto& t : th) t.join(); }
+			if (!sweepFailure.empty()) R.harnessFail(sweepFailure);
+			for (int v2 = 0; v2 < 2; ++v2) for (size_t k = 0; k < sin.size(); ++k) {
+				for (size_t i = 1; i < fv.size(); ++i) if (fv[i].out[v2][k] != fv[0].out[v2][k])
+					R.violation("C01:differential:digest:" + fv[0].name + "-vs-" + fv[i].name, "{\"key\":\"" + keyHex + "\",\"input\":\"" + hex(sin[k].data(), sin[k].size() > 200 ? 200 : sin[k].size()) + "\",\"input_len\":" + std::to_string(sin[k].size()) +
+						",\"v2\":" + std::to_string(v2) + ",\"a\":\"" + hex(fv[0].out[v2][k].data(), 32) + "\",\"b\":\"" + hex(fv[i].out[v2][k].data(), 32) + "\"}");
+				R.count("fast_sweep_triples"); R.evaluation();
+				R.nontrivial(fnv1a(sin[k].data(), sin[k].size(), fnv1a(key.data(), key.size()) ^ v2 ^ 0x5eeb));
+			}
+			R.count("fast_sweep_vms", fv.size());
 		}
 		{ std::string names; for (size_t i = 0; i < vms.size() && i < 80; ++i) names += (i ? "," : "") + jsonStr(vms[i].name); R.note("configuration_matrix", "[" + names + "]"); }
 		for (auto* d : datasets) api::releaseDataset(d);
